@@ -684,7 +684,7 @@ func TestCheck(t *testing.T) {
 	r.Rule("One case = one request sequence on one fresh front end instance (real ctfe handlers) over ref/reflog holding 6 sequenced entries (3 certificates, 3 precertificates), " +
 		"x chain service {direct, indirect with in-memory store + cache} x MaskInternalErrors {off, on}. " +
 		"matrix: for each of the 7 RPC-issuing endpoints, 3-request sequences (same request three times; three different requests; thorough: 4 more templates, get-sth / add-chain as foreign neighbours) with the endpoint's RPC replaced at position 1, 2 or 3 " +
-		"(thorough: every ordered pair of faults at two of the three positions) by: each gRPC code 1..16 as status.Error (status.Error(OK) is nil and coincides with the absent reply), two wrapped status errors, a plain error, raw context.DeadlineExceeded, an error value claiming code OK; " +
+		"(thorough: every ordered pair of faults at two of the three positions) by: each gRPC code 1..16 as status.Error (status.Error(OK) is nil and coincides with the absent reply), two wrapped status errors, a plain error, raw context.DeadlineExceeded and context.Canceled, each of them wrapped with %w, an error value claiming code OK; " +
 		"absent reply; SignedLogRoot absent; LogRoot empty / cut by 1 / cut in half / version only / version 0 / version 2 / one trailing byte; root hash of 0 / 31 / 33 bytes; a well-formed head of a tree one smaller than the request needs (without and with the data), and of the empty tree; " +
 		"get-entries: one surplus leaf, the whole tree instead of the range, indices +1 / -1 / zero-based / gap / reversed / all equal / first only wrong, leaves in reverse order; proofs: Proof absent, proof list empty, node of 0/31/33 bytes at first/middle/last position, proof without nodes; get-entry-and-proof: leaf absent, leaf value empty; " +
 		"submission: QueuedLeaf absent, QueuedLeaf without Leaf (with and without status), echoed value empty / garbage / cut / trailing byte / leaf type 1, 255 / entry type 2, 65535 / version 1. get-roots (no RPC) runs while the backend is down. " +
@@ -694,7 +694,7 @@ func TestCheck(t *testing.T) {
 		"one backend RPC per request is faulty; the issuance chain store and cache of the indirect service stay healthy",
 		"only wire-representable replies: no nil element inside a repeated field; an absent reply (nil, nil) is part of the alphabet although the generated gRPC client never produces it",
 		"numbers are RFC 6962 s4 'decimal': one or more ASCII digits within int64; a hash is padded standard base64 of exactly 32 bytes; anything else is a malformed parameter",
-		"raw context.DeadlineExceeded returned by the client is a timeout (504); an error value whose status code is OK is a backend fault (5xx)",
+		"context.DeadlineExceeded or context.Canceled returned by the client, bare or wrapped, is a timeout (504); an error value whose status code is OK is a backend fault (5xx)",
 		"'every other backend fault or malformed reply gives 5xx' is read as: 5xx other than 501 / 503 / 504, which the statement reserves for named causes",
 		"a sound tree head with an empty proof list on get-proof-by-hash may be 4xx or 5xx (unknown hash and backend fault are indistinguishable)",
 		"not judged (only no-panic): proof nodes of wrong size on get-entry-and-proof, a proof without nodes on the two proof-only endpoints, an echoed leaf of version 1, get-sth-consistency first=0 beyond the tree, get-entries 0..2^63-1",
